@@ -1,10 +1,11 @@
 from contracts.workspace_io import IoCall, UpdateAttributeGuard, FetchActiveWorkspace, structural_scan
+from contracts.repaired import ComponentsReadOnly
 from contracts.getters import GettersDoNotWrite
 from contracts.sessions import ReadOnlyHistories
 from contracts.tree import OpenMode
 from contracts.reader import LoadStoredRoot
 from contracts.removal import ObjectRemoveChildren, ContainerRemoveChildren
-CONTRACTS = [IoCall, UpdateAttributeGuard, FetchActiveWorkspace, OpenMode, LoadStoredRoot, ObjectRemoveChildren, ContainerRemoveChildren, ReadOnlyHistories] + [GettersDoNotWrite]
+CONTRACTS = [IoCall, UpdateAttributeGuard, FetchActiveWorkspace, OpenMode, LoadStoredRoot, ObjectRemoveChildren, ContainerRemoveChildren, ReadOnlyHistories] + [GettersDoNotWrite] + [ComponentsReadOnly]
 EXTRA_CHECKS = [structural_scan]
 
 MANIFEST = {
